@@ -36,19 +36,22 @@ func lastName(s string) string {
 
 // guardSignature lists, for the update closure of an apply handler, the
 // sentinel errors it can return and the comparison that guards each.
-func guardSignature(cl *ssa.Function) []string {
+func guardSignature(p *core.Prog, cl *ssa.Function) []string {
 	var out []string
-	for _, ret := range core.Returns(cl) {
-		if len(ret.Results) != 1 {
-			continue
-		}
-		g, ok := loadedGlobal(ret.Results[0])
-		if !ok {
-			continue
-		}
-		eds := dominatingEdges(ret)
-		shape := "unconditional"
-		if len(eds) > 0 {
+	for _, fn := range p.Helpers(cl) {
+		for _, ret := range core.Returns(fn) {
+			if len(ret.Results) != 1 {
+				continue
+			}
+			g, ok := loadedGlobal(ret.Results[0])
+			if !ok {
+				continue
+			}
+			eds := dominatingEdges(ret)
+			if len(eds) == 0 {
+				out = append(out, g+"@unconditional")
+				continue
+			}
 			// the closest edge: the one whose If block is dominated by all others
 			best := eds[0]
 			for _, e := range eds[1:] {
@@ -56,12 +59,67 @@ func guardSignature(cl *ssa.Function) []string {
 					best = e
 				}
 			}
-			shape = condShape(best)
+			for _, sh := range impliedShapes(best, 0) {
+				out = append(out, g+"@"+sh)
+			}
 		}
-		out = append(out, g+"@"+shape)
 	}
 	sort.Strings(out)
 	return out
+}
+
+// impliedShapes renders a guard edge. When the edge tests the bool result of
+// a helper of the same package (`exists, err := resourceExists(txn, key); if
+// exists {...}`), it is rendered as the comparisons that hold on every return
+// of the helper that is compatible with the edge.
+func impliedShapes(e edgeCond, depth int) []string {
+	cond, succ := e.Norm()
+	var call *ssa.Call
+	idx := 0
+	switch x := cond.(type) {
+	case *ssa.Call:
+		call = x
+	case *ssa.Extract:
+		if c, ok := x.Tuple.(*ssa.Call); ok {
+			call, idx = c, x.Index
+		}
+	}
+	if call == nil || depth > 3 {
+		return []string{condShape(e)}
+	}
+	cal := call.Common().StaticCallee()
+	if cal == nil || len(cal.Blocks) == 0 || cal.Pkg == nil || cal.Pkg != core.Outermost(e.If.Parent()).Pkg {
+		return []string{condShape(e)}
+	}
+	want := succ == 0
+	var common map[string]bool
+	for _, ret := range core.Returns(cal) {
+		if cal.Recover != nil && ret.Block() == cal.Recover {
+			continue
+		}
+		if idx >= len(ret.Results) || isConstBool(ret.Results[idx], !want) {
+			continue
+		}
+		cur := map[string]bool{}
+		for _, de := range dominatingEdges(ret) {
+			for _, sh := range impliedShapes(de, depth+1) {
+				cur[sh] = true
+			}
+		}
+		if common == nil {
+			common = cur
+		} else {
+			for k := range common {
+				if !cur[k] {
+					delete(common, k)
+				}
+			}
+		}
+	}
+	if len(common) == 0 {
+		return []string{condShape(e)}
+	}
+	return core.SortedKeys(common)
 }
 
 func condShape(e edgeCond) string {
@@ -112,6 +170,37 @@ func condShape(e edgeCond) string {
 				}
 			}
 		}
+		// role label: the apply handler's index parameter, whatever it is called
+		{
+			w := core.Strip(v)
+			if u, ok := w.(*ssa.UnOp); ok && u.Op == token.MUL {
+				if fv, ok := u.X.(*ssa.FreeVar); ok {
+					w = core.BindingOf(fv)
+				}
+			}
+			if fv, ok := w.(*ssa.FreeVar); ok {
+				w = core.BindingOf(fv)
+			}
+			if al, ok := w.(*ssa.Alloc); ok && al.Referrers() != nil {
+				// a captured parameter is spilled to a cell: the cell's only store is the parameter
+				var src ssa.Value
+				n := 0
+				for _, rf := range *al.Referrers() {
+					if st, ok := rf.(*ssa.Store); ok && st.Addr == ssa.Value(al) {
+						src = st.Val
+						n++
+					}
+				}
+				if n == 1 {
+					w = src
+				}
+			}
+			if prm, ok := w.(*ssa.Parameter); ok {
+				if bt, ok := prm.Type().Underlying().(*types.Basic); ok && bt.Kind() == types.Int {
+					return "idx"
+				}
+			}
+		}
 		d := valDesc(v)
 		if i := strings.LastIndex(d, ":"); i >= 0 {
 			d = d[i+1:]
@@ -149,7 +238,7 @@ func c20(r *core.Run) {
 	r.Rule("T1", "one transaction: every Set/SetEntry/Delete on a badger.Txn in the middleware is made on the parameter of a closure passed directly to DB.Update, and that closure also reads the resource key before writing it", 10)
 	r.Rule("G1", "guards: add rejects len<idx, remove rejects len<=idx, create rejects an existing or defaulted resource, change and remove reject a missing resource without default - each by returning its sentinel from the closure on an edge that does not reach the write", 10)
 	r.Rule("S1", "sibling agreement: the two middleware copies have the same guard -> sentinel sets in each of the five apply handlers", 5)
-	r.Rule("I1", "default stays immutable: the handler's default bytes (served for every resource that is not stored yet) are never a destination: the buffer handed to Item.ValueCopy is nil or freshly made, never (a variable that may hold) the default field, and no element of the default field is stored to", 6)
+	r.Rule("I1", "default stays immutable: the handler's default bytes (served for every resource that is not stored yet) are never a destination: the buffer handed to Item.ValueCopy is nil or freshly made, never (a variable that may hold) the default field, and no element of the default field is stored to", 2)
 	r.Rule("D1", "old values: the change handler treats a property as absent only on the not-present edge of a comma-ok lookup on the stored model and records the looked-up value or the delete action as old value; the delete handler returns the bytes read in the same transaction before the delete", 6)
 
 	want := map[string][]string{
@@ -182,30 +271,68 @@ func c20(r *core.Run) {
 				r.Bad("T1", core.FuncName(m), "runs-in-one-update-closure", p.Pos(m.Pos()), "apply handler does not run inside a DB.Update closure")
 				continue
 			}
-			// read-modify-write on the same key inside the closure
-			var get, wr ssa.CallInstruction
-			mayGet := mayExec(p.FuncsOfPkg(mp.rel), func(in ssa.Instruction) bool {
-				c, ok := in.(ssa.CallInstruction)
-				return ok && isBadgerCall(c, "Txn", "Get")
-			})
-			for _, c := range core.Calls(cl) {
-				if get == nil && (isBadgerCall(c, "Txn", "Get") || (c.Common().StaticCallee() != nil && mayGet[c.Common().StaticCallee()] && len(c.Common().Args) > 0)) {
-					get = c
-				}
-				if isTxnWrite(c) {
-					wr = c
+			// read-modify-write on the same key inside the closure (statements may live in private
+			// helpers taking the transaction: they are lifted to their call sites in the closure)
+			var txnPrm ssa.Value
+			for _, prm := range cl.Params {
+				if strings.HasSuffix(core.TypeName(prm.Type()), "badger.Txn") {
+					txnPrm = prm
 				}
 			}
-			sameTxn := false
-			if get != nil && wr != nil {
-				for _, a := range get.Common().Args {
-					if a == wr.Common().Args[0] {
-						sameTxn = true
+			onTxn := func(c ssa.CallInstruction) bool {
+				sites := p.Lift(c, cl)
+				if len(sites) == 0 {
+					return false
+				}
+				for _, x := range sites {
+					xc, ok := x.(ssa.CallInstruction)
+					if !ok {
+						return false
+					}
+					has := false
+					for _, a := range xc.Common().Args {
+						if core.Strip(a) == txnPrm {
+							has = true
+						}
+					}
+					if !has {
+						return false
 					}
 				}
+				return true
 			}
-			r.Check(get != nil && wr != nil && core.Dominates(get, wr) && sameTxn, "T1", core.FuncName(cl), "read-before-write-on-same-txn", posOf(p, wr), "the stored value is read and rewritten on the closure's own transaction", "the write is not preceded by a read of the resource on the same transaction")
-			sig := guardSignature(cl)
+			var gets, wrs []ssa.CallInstruction
+			for _, c := range helperCalls(p, cl) {
+				if isBadgerCall(c, "Txn", "Get") && onTxn(c) {
+					gets = append(gets, c)
+				}
+				if isTxnWrite(c) {
+					wrs = append(wrs, c)
+				}
+			}
+			var wr ssa.CallInstruction
+			rmw := len(wrs) > 0 && txnPrm != nil
+			for _, w := range wrs {
+				wr = w
+				if !onTxn(w) {
+					rmw = false
+				}
+				dom := false
+				for _, g := range gets {
+					for _, gs := range p.Lift(g, cl) {
+						for _, ws := range p.Lift(w, cl) {
+							if gs != ws && core.Dominates(gs, ws) {
+								dom = true
+							}
+						}
+					}
+				}
+				if !dom {
+					rmw = false
+				}
+			}
+			r.Check(rmw, "T1", core.FuncName(cl), "read-before-write-on-same-txn", posOf(p, wr), "the stored value is read and rewritten on the closure's own transaction", "the write is not preceded by a read of the resource on the same transaction")
+			sig := guardSignature(p, cl)
 			sigs[mp.rel][name] = sig
 			for _, w := range want[name] {
 				found := false
@@ -226,7 +353,7 @@ func c20(r *core.Run) {
 						_ = ed
 					}
 					// the return lies on a path before the write: write must not dominate it
-					r.Check(!core.Dominates(wr, ret), "G1", core.FuncName(cl), "sentinel-return-before-write:"+condShapeOfReturn(ret), p.InstrPos(ret), "the event is rejected before anything is written", "a sentinel is returned after the write was made (storage already changed)")
+					r.Check(wr.Parent() != cl || !core.Dominates(wr, ret), "G1", core.FuncName(cl), "sentinel-return-before-write:"+condShapeOfReturn(ret), p.InstrPos(ret), "the event is rejected before anything is written", "a sentinel is returned after the write was made (storage already changed)")
 				}
 			}
 		}
@@ -256,6 +383,56 @@ func c20(r *core.Run) {
 							}
 						}
 					}
+				}
+			}
+		}
+	}
+	// ---- I1 (continued): the fold starts from the configured default ------------
+	// the raw default is what events on a not-yet-stored resource are folded over (and what is
+	// persisted then): it must be the marshalled Default option itself, not a value derived from
+	// it through a callback (a view such as Map hides or computes fields)
+	for _, mp := range mwPkgs {
+		for _, fn := range p.FuncsOfPkg(mp.rel) {
+			for _, b := range fn.Blocks {
+				for _, in := range b.Instrs {
+					st, ok := in.(*ssa.Store)
+					if !ok || !isByteSlice(st.Val.Type()) {
+						continue
+					}
+					f, ok := core.FieldOf(st.Addr)
+					if !ok || !strings.HasSuffix(f.Struct, mp.typ) {
+						continue
+					}
+					ex, ok := core.Strip(st.Val).(*ssa.Extract)
+					var mc *ssa.Call
+					if ok && ex.Index == 0 {
+						if c, ok := ex.Tuple.(*ssa.Call); ok && core.CalleeName(c) == "encoding/json.Marshal" {
+							mc = c
+						}
+					}
+					if mc == nil {
+						continue
+					}
+					bad := ""
+					var walk func(v ssa.Value, d int)
+					walk = func(v ssa.Value, d int) {
+						v = core.Strip(v)
+						if phi, ok := v.(*ssa.Phi); ok && d < 5 {
+							for _, e := range phi.Edges {
+								walk(e, d+1)
+							}
+							return
+						}
+						if _, ok := core.LoadedField(v); ok {
+							return
+						}
+						if _, ok := v.(*ssa.Parameter); ok {
+							return
+						}
+						bad = valDesc(v)
+					}
+					walk(mc.Call.Args[0], 0)
+					r.Check(bad == "", "I1", core.FuncName(fn), "raw-default=marshal(configured-default)", p.InstrPos(st), "the raw default is the marshalled Default option", "the raw default is marshalled from "+bad+" instead of the configured default: events on a resource that is not stored yet are folded over (and persist) a different value than the default")
 				}
 			}
 		}
@@ -407,8 +584,8 @@ func c20(r *core.Run) {
 		if m := methodNamed(p, mp.rel, mp.typ, "applyDelete"); m != nil {
 			for _, cl := range m.AnonFuncs {
 				var vc, del ssa.CallInstruction
-				for _, c := range core.Calls(cl) {
-					if cal := c.Common().StaticCallee(); cal != nil && cal.Name() == "ValueCopy" {
+				for _, c := range helperCalls(p, cl) {
+					if cal := c.Common().StaticCallee(); cal != nil && cal.Name() == "ValueCopy" && strings.Contains(cal.String(), "badger") {
 						vc = c
 					}
 					if isBadgerCall(c, "Txn", "Delete") {
@@ -418,24 +595,43 @@ func c20(r *core.Run) {
 				if del == nil {
 					continue
 				}
-				r.Check(vc != nil && core.Dominates(vc, del), "D1", core.FuncName(cl), "value-read-before-delete-in-same-txn", p.InstrPos(del), "the deleted data is read in the transaction that deletes it", "delete does not read the value in the same transaction before deleting")
-				// the outer function unmarshals the captured cell written from ValueCopy
+				before := false
+				if vc != nil {
+					for _, vs := range p.Lift(vc, cl) {
+						for _, ds := range p.Lift(del, cl) {
+							if vs != ds && core.Dominates(vs, ds) {
+								before = true
+							}
+						}
+					}
+				}
+				r.Check(before, "D1", core.FuncName(cl), "value-read-before-delete-in-same-txn", p.InstrPos(del), "the deleted data is read in the transaction that deletes it", "delete does not read the value in the same transaction before deleting")
+				// the outer function unmarshals the captured cell written from ValueCopy's result
 				cellOK := false
-				if vc != nil && vc.Value().Referrers() != nil {
-					for _, rf := range *vc.Value().Referrers() {
-						if ex, ok := rf.(*ssa.Extract); ok && ex.Index == 0 && ex.Referrers() != nil {
-							for _, r2 := range *ex.Referrers() {
-								if st, ok := r2.(*ssa.Store); ok {
-									if fv, ok := st.Addr.(*ssa.FreeVar); ok {
-										cell := core.BindingOf(fv)
-										for _, c := range core.Calls(m) {
-											for i, a := range c.Common().Args {
-												if u, ok := a.(*ssa.UnOp); ok && u.X == cell && argReachesUnmarshal(c, i, 0) {
-													cellOK = true
-												}
-											}
-										}
-									}
+				for _, b := range cl.Blocks {
+					for _, in := range b.Instrs {
+						st, ok := in.(*ssa.Store)
+						if !ok {
+							continue
+						}
+						fv, ok := st.Addr.(*ssa.FreeVar)
+						if !ok || !isByteSlice(st.Val.Type()) {
+							continue
+						}
+						fromVC := false
+						for _, lf := range valueLeaves(st.Val, nil, 0) {
+							if ex, ok := core.Strip(lf.V).(*ssa.Extract); ok && ex.Index == 0 && vc != nil && ex.Tuple == vc.Value() {
+								fromVC = true
+							}
+						}
+						if !fromVC {
+							continue
+						}
+						cell := core.BindingOf(fv)
+						for _, c := range core.Calls(m) {
+							for i, a := range c.Common().Args {
+								if u, ok := a.(*ssa.UnOp); ok && u.X == cell && argReachesUnmarshal(c, i, 0) {
+									cellOK = true
 								}
 							}
 						}
